@@ -1,7 +1,799 @@
-use crate::msg_gen::Tier; use crate::rng::Rng; use crate::report::RunReport; use serde_json::Value;
-pub fn gen_c12(_rng: &mut Rng, _tier: Tier) -> Result<Value, serde_json::Error> { Ok(Value::Null) }
-pub fn gen_c14(_rng: &mut Rng, _tier: Tier) -> Result<Value, serde_json::Error> { Ok(Value::Null) }
-pub fn gen_c16(_rng: &mut Rng, _tier: Tier) -> Result<Value, serde_json::Error> { Ok(Value::Null) }
-pub fn execute_c12(_s: &Value) -> RunReport { RunReport::default() }
-pub fn execute_c14(_s: &Value) -> RunReport { RunReport::default() }
-pub fn execute_c16(_s: &Value) -> RunReport { RunReport::default() }
+//! Entropy-, schedule- and shared-state-dependent properties (DESIGN §5): C12 decoys, C14 salts
+//! across threads, C16 the deterministic-salt build (binary sdsim-mock).
+
+use crate::gen::{self, GenCfg, Strat};
+use crate::keys;
+use crate::model;
+use crate::msg_gen::{self, clock_base, rand_fmt, Tier};
+use crate::report::{RunReport, Violation};
+use crate::rng::{hash_str, mix, Rng};
+use crate::rt::{Job, JobOut, Step};
+use crate::seams;
+use crate::wire::{Fmt, Message};
+use crate::world::{self, Out, Resolver, World};
+use serde::{Deserialize, Serialize};
+use serde_json::{json, Map, Value};
+use std::collections::{BTreeMap, BTreeSet, HashSet, VecDeque};
+use std::sync::atomic::Ordering;
+
+struct Ctx {
+    rep: RunReport,
+    nontrivial: BTreeSet<u64>,
+    states: BTreeSet<u64>,
+    sigs: BTreeSet<String>,
+}
+
+impl Ctx {
+    fn new() -> Ctx {
+        Ctx { rep: RunReport::default(), nontrivial: BTreeSet::new(), states: BTreeSet::new(), sigs: BTreeSet::new() }
+    }
+    fn violate(&mut self, property: &str, clause: &str, sig: String, trigger: BTreeMap<String, Value>, detail: Value, scenario: Value) {
+        if self.sigs.insert(sig.clone()) {
+            self.rep.violations.push(Violation { property: property.into(), clause: clause.into(), signature: sig, trigger, detail, scenario });
+        }
+    }
+}
+
+fn finish(mut c: Ctx, w: Option<World>, t0: i64) -> RunReport {
+    c.rep.nontrivial = c.nontrivial.into_iter().collect();
+    c.rep.states = c.states.into_iter().collect();
+    if let Some(mut w) = w {
+        c.rep.add("rt.threads_spawned", w.rt.spawned);
+        c.rep.add("rt.steps", w.rt.steps);
+        c.rep.add("ops", w.ops);
+        w.rt.shutdown();
+    }
+    let end = seams::deactivate();
+    c.rep.loghash = end.loghash;
+    c.rep.add("seam.entropy_requests", end.ent_requests);
+    c.rep.add("seam.entropy_bytes", end.ent_bytes);
+    c.rep.add("seam.clock_reads", end.clock_reads);
+    c.rep.sim_seconds = (end.clock_ns / 1_000_000_000 - t0).max(0) as u64;
+    c.rep
+}
+
+fn blank_digests(v: &Value) -> Value {
+    match v {
+        Value::Object(o) => {
+            if o.len() == 1 && o.get("...").map(|d| d.is_string()).unwrap_or(false) {
+                return json!("<placeholder>");
+            }
+            Value::Object(o.iter().filter(|(k, _)| k.as_str() != "_sd").map(|(k, c)| (k.clone(), blank_digests(c))).collect())
+        }
+        Value::Array(a) => Value::Array(a.iter().map(blank_digests).collect()),
+        _ => v.clone(),
+    }
+}
+
+fn is_b64url_43(s: &str) -> bool {
+    s.len() == 43 && s.bytes().all(|b| b.is_ascii_alphanumeric() || b == b'-' || b == b'_') && model::b64d(s).map(|b| b.len() == 32).unwrap_or(false)
+}
+
+// ---------------------------------------------------------------------------------------------
+// C12
+
+#[derive(Clone, Debug, Serialize, Deserialize, PartialEq)]
+pub struct DecoyScn {
+    pub kind: String,
+    pub check: String,
+    pub entropy_seed: u64,
+    pub clock_base: i64,
+    pub key: String,
+    #[serde(default)]
+    pub alg: Option<String>,
+    pub claims: Value,
+    pub strat: Strat,
+    pub fmt: Fmt,
+    pub issuances: usize,
+    pub selections: Vec<Map<String, Value>>,
+}
+
+pub fn gen_c12(rng: &mut Rng, tier: Tier) -> Result<Value, serde_json::Error> {
+    let now = clock_base(rng);
+    let key = rng.pick(&["ecA", "edA", "hsA", "hsA", "edA"]).to_string();
+    let cfg = GenCfg { hazard_pm: 0, max_depth: 2 + rng.usize(4), max_nodes: 8 + rng.usize(28), alphabet: rng.usize(2) as u8, path_safe_names: true };
+    let mut claims = gen::gen_claims(rng, &cfg, "https://issuer-a.example", now);
+    // shapes the property names explicitly: objects with no hidden member, objects nested in
+    // arrays and in hidden values, several hidden members side by side
+    if let Some(o) = claims.as_object_mut() {
+        o.insert("profile".into(), json!({"first": "A", "last": "B", "middle": "C", "nick": "D", "addr": {"street": "s", "zip": "z", "geo": {}}}));
+        if rng.bool() {
+            o.insert("list".into(), json!([{"k": 1, "l": 2}, [{"m": {}}], "x"]));
+        }
+    }
+    let strat = match rng.usize(5) {
+        0 => Strat::Top,
+        1 => gen::gen_strategy(rng, &claims),
+        _ => Strat::All,
+    };
+    let issuances = match tier {
+        Tier::Quick => 50 + rng.usize(100),
+        Tier::Thorough => 200 + rng.usize(200),
+    };
+    let selections = (0..3)
+        .map(|i| {
+            let keep = 300 + rng.below(700);
+            if i == 0 {
+                gen::select_all(&claims)
+            } else {
+                gen::gen_selection(rng, &claims, keep)
+            }
+        })
+        .collect();
+    serde_json::to_value(DecoyScn { kind: "decoys".into(), check: "C12".into(), entropy_seed: rng.next_u64(), clock_base: now, key: key.clone(), alg: Some(keys::alg_of(&key).to_string()), claims, strat, fmt: rand_fmt(rng), issuances, selections })
+}
+
+pub fn execute_c12(scn_v: &Value) -> RunReport {
+    let scn: DecoyScn = match serde_json::from_value(scn_v.clone()) {
+        Ok(s) => s,
+        Err(e) => return RunReport { harness_error: Some(format!("invalid scenario: {}", e)), ..Default::default() },
+    };
+    let t0 = scn.clock_base.max(1_000_000_000);
+    seams::activate(scn.entropy_seed, t0, mix(&[scn.entropy_seed, 12]), 1_000_000_000);
+    let mut dir = BTreeMap::new();
+    dir.insert("https://issuer-a.example".to_string(), scn.key.clone());
+    let mut w = World::new(dir);
+    let n_i = w.rt.add_node();
+    let n_h = w.rt.add_node();
+    let n_v = w.rt.add_node();
+    let mut cx = Ctx::new();
+    let ih = World::new_issuer(&scn.key, scn.alg.clone());
+    let scenario = scn_v.clone();
+    let mut all_decoys: HashSet<String> = HashSet::new();
+    let mut all_real: HashSet<String> = HashSet::new();
+    let (mut lists, mut lists_member_order, mut lists_decoys_after) = (0u64, 0u64, 0u64);
+    let mut first_on: Option<String> = None;
+    let n = scn.issuances.max(1);
+    for k in 0..n {
+        let out = w.issue(n_i, &ih, &scn.key, &scn.claims, &scn.strat, None, true, scn.fmt);
+        let Out::Ok(s) = out else {
+            cx.rep.count("creds_not_issued");
+            break;
+        };
+        if first_on.is_none() {
+            first_on = Some(s.clone());
+        }
+        let Some(m) = Message::parse(&s, scn.fmt) else { break };
+        let Some(p) = world::payload_of(&m) else { break };
+        let (_, proc) = model::process(&p, &m.disclosures);
+        cx.rep.evaluations += 1;
+        let real: HashSet<&String> = proc.nodes.iter().map(|nd| &nd.digest).collect();
+        let order: BTreeMap<&String, usize> = m.disclosures.iter().enumerate().map(|(i, d)| (d, i)).collect();
+        let disc_of: BTreeMap<&String, &String> = proc.nodes.iter().map(|nd| (&nd.digest, &nd.disclosure)).collect();
+        for (oi, o) in proc.objects.iter().enumerate() {
+            let decoys: Vec<&String> = o.sd.iter().filter(|d| !real.contains(d)).collect();
+            cx.rep.count("oracle.c12.object_checked");
+            if decoys.is_empty() {
+                cx.violate("C12", "every-object-has-a-decoy", "c12:object_without_decoy".into(), BTreeMap::new(), json!({"issuance": k, "object_index": oi, "depth": o.depth, "plain_members": o.plain, "sd": o.sd}), scenario.clone());
+            }
+            for d in &decoys {
+                if !is_b64url_43(d) {
+                    cx.violate("C12", "decoy-has-digest-form", "c12:decoy_form".into(), BTreeMap::new(), json!({"issuance": k, "decoy": d}), scenario.clone());
+                }
+                if !all_decoys.insert((*d).clone()) || all_real.contains(*d) {
+                    cx.violate("C12", "decoys-unique", "c12:decoy_repeated".into(), BTreeMap::new(), json!({"issuance": k, "decoy": d}), scenario.clone());
+                }
+            }
+            let reals: Vec<&String> = o.sd.iter().filter(|d| real.contains(d)).collect();
+            if reals.len() >= 2 {
+                lists += 1;
+                // member order = creation order of the members' disclosures
+                let idx: Vec<usize> = reals.iter().filter_map(|d| disc_of.get(*d).and_then(|s| order.get(*s)).copied()).collect();
+                if idx.windows(2).all(|p| p[0] < p[1]) {
+                    lists_member_order += 1;
+                }
+                let last_real = o.sd.iter().rposition(|d| real.contains(d)).unwrap_or(0);
+                let first_decoy = o.sd.iter().position(|d| !real.contains(d)).unwrap_or(usize::MAX);
+                if first_decoy > last_real {
+                    lists_decoys_after += 1;
+                }
+            }
+        }
+        for d in &real {
+            all_real.insert((*d).clone());
+            if all_decoys.contains(*d) {
+                cx.violate("C12", "decoys-unique", "c12:decoy_equals_real".into(), BTreeMap::new(), json!({"issuance": k}), scenario.clone());
+            }
+        }
+        if proc.nodes.len() != m.disclosures.len() {
+            cx.rep.count("probe.unreferenced_disclosure_in_issued_token");
+        }
+        if cx.rep.sample.is_none() && k == 1 {
+            cx.rep.sample = Some(json!({"kind": "decoys", "strategy": scn.strat.name(), "objects": proc.objects.len(), "disclosures": m.disclosures.len(),
+                "sd_lists": proc.objects.iter().map(|o| json!({"depth": o.depth, "real": o.sd.iter().filter(|d| real.contains(d)).count(), "decoys": o.sd.iter().filter(|d| !real.contains(d)).count()})).collect::<Vec<_>>()}));
+        }
+        if !cx.rep.violations.is_empty() {
+            break;
+        }
+    }
+    cx.rep.add("oracle.c12.sd_lists_with_2_real", lists);
+    cx.rep.add("oracle.c12.lists_in_member_order", lists_member_order);
+    cx.rep.add("oracle.c12.lists_decoys_after_real", lists_decoys_after);
+    if lists >= 200 {
+        cx.rep.count("oracle.c12.order_judged");
+        if lists_member_order == lists {
+            cx.violate("C12", "order-does-not-reveal-member-order", "c12:order_member_order".into(), BTreeMap::new(), json!({"lists": lists}), scenario.clone());
+        }
+        if lists_decoys_after == lists {
+            cx.violate("C12", "order-does-not-reveal-decoys", "c12:order_decoys_last".into(), BTreeMap::new(), json!({"lists": lists}), scenario.clone());
+        }
+    }
+    // decoys off: every digest matches an issued disclosure
+    let mut first_off: Option<String> = None;
+    for k in 0..(n / 10).max(2) {
+        let Out::Ok(s) = w.issue(n_i, &ih, &scn.key, &scn.claims, &scn.strat, None, false, scn.fmt) else { break };
+        if first_off.is_none() {
+            first_off = Some(s.clone());
+        }
+        let Some(m) = Message::parse(&s, scn.fmt) else { break };
+        let Some(p) = world::payload_of(&m) else { break };
+        let (_, proc) = model::process(&p, &m.disclosures);
+        cx.rep.evaluations += 1;
+        let real: HashSet<&String> = proc.nodes.iter().map(|nd| &nd.digest).collect();
+        if proc.seen.iter().any(|d| !real.contains(d)) {
+            cx.violate("C12", "no-decoys-when-disabled", "c12:decoy_when_disabled".into(), BTreeMap::new(), json!({"issuance": k}), scenario.clone());
+        }
+    }
+    // inert: holder and verifier results identical to the decoy-free case
+    if let (Some(on), Some(off)) = (first_on, first_off) {
+        for sel in &scn.selections {
+            let mut res = Vec::new();
+            for s in [&on, &off] {
+                let pres = match w.holder_new(n_h, s, scn.fmt) {
+                    Out::Ok(h) => w.present(n_h, &h, sel, None),
+                    Out::Err { variant, msg } => Out::Err { variant, msg },
+                    Out::Panic(p) => Out::Panic(p),
+                };
+                let picked: Option<Vec<String>> = pres.ok().and_then(|p| Message::parse(p, scn.fmt)).map(|m| {
+                    // (name, value) with digest lists and placeholders blanked: digests differ between
+                    // two issuances anyway (fresh salts), and decoys only ever live in `_sd`
+                    let mut v: Vec<String> = m.disclosures.iter().filter_map(|d| model::decode_disclosure(d)).map(|d| blank_digests(&Value::Array(d.as_array().map(|a| a[1..].to_vec()).unwrap_or_default())).to_string()).collect();
+                    v.sort();
+                    v
+                });
+                let verified = match pres.ok() {
+                    Some(p) => {
+                        let vo = w.verify(n_v, p, scn.fmt, None, &Resolver::Directory);
+                        vo.res().ok().cloned()
+                    }
+                    None => None,
+                };
+                res.push((pres.class(), picked, verified, pres.is_panic()));
+            }
+            cx.rep.evaluations += 1;
+            cx.rep.count("oracle.c12.inert_compared");
+            if res[0].3 || res[1].3 {
+                continue;
+            }
+            if res[0].0 != res[1].0 || res[0].1 != res[1].1 || res[0].2 != res[1].2 {
+                cx.violate("C12", "decoys-inert", "c12:not_inert".into(), BTreeMap::new(), json!({"selection": sel, "with_decoys": {"holder": res[0].0, "picked": res[0].1, "claims": res[0].2}, "without": {"holder": res[1].0, "picked": res[1].1, "claims": res[1].2}}), scenario.clone());
+            }
+        }
+    }
+    if all_decoys.len() >= 2 {
+        cx.nontrivial.insert(mix(&[scn.entropy_seed, hash_str(&scn.claims.to_string())]));
+    }
+    cx.states.insert(hash_str(&format!("c12|{}|{}|{}|{}", scn.key, scn.strat.name(), scn.fmt.name(), lists >= 200)));
+    finish(cx, Some(w), t0)
+}
+
+// ---------------------------------------------------------------------------------------------
+// C14
+
+#[derive(Clone, Debug, Serialize, Deserialize, PartialEq)]
+pub struct ThreadsScn {
+    pub kind: String,
+    pub check: String,
+    pub entropy_seed: u64,
+    /// second entropy seed: a world differing only in it must share no salt
+    pub other_entropy_seed: u64,
+    pub sched_seed: u64,
+    pub clock_base: i64,
+    /// 0 = frozen for the whole world; otherwise max tick in ns per clock read
+    pub tick_max_ns: i64,
+    pub threads: usize,
+    pub per_thread: usize,
+    pub key: String,
+    pub same_claims: bool,
+    pub claims: Vec<Value>,
+    pub decoys: bool,
+    /// (thread, after how many of its issuances) -> that node is replaced by a fresh thread
+    pub restarts: Vec<(usize, usize)>,
+    pub preempt_entropy: bool,
+    pub preempt_clock: bool,
+}
+
+pub fn gen_c14(rng: &mut Rng, tier: Tier) -> Result<Value, serde_json::Error> {
+    let now = clock_base(rng);
+    let threads = match rng.usize(4) {
+        0 => 1,
+        1 => 2 + rng.usize(3),
+        _ => 2 + rng.usize(15),
+    };
+    let per_thread = match tier {
+        Tier::Quick => 4 + rng.usize(20),
+        Tier::Thorough => 100 + rng.usize(500),
+    };
+    let key = rng.pick(&["ecA", "ecA", "edA", "hsA"]).to_string();
+    let cfg = GenCfg { hazard_pm: 0, max_depth: 2 + rng.usize(3), max_nodes: 6 + rng.usize(14), alphabet: 0, path_safe_names: true };
+    let same_claims = rng.bool();
+    let n_claims = if same_claims { 1 } else { threads };
+    let claims: Vec<Value> = (0..n_claims).map(|_| gen::gen_claims(rng, &cfg, "https://issuer-a.example", now)).collect();
+    let mut restarts = Vec::new();
+    for _ in 0..rng.usize(4) {
+        restarts.push((rng.usize(threads), 1 + rng.usize(per_thread)));
+    }
+    serde_json::to_value(ThreadsScn {
+        kind: "threads".into(),
+        check: "C14".into(),
+        entropy_seed: rng.next_u64(),
+        other_entropy_seed: rng.next_u64(),
+        sched_seed: rng.next_u64(),
+        clock_base: now,
+        tick_max_ns: if rng.bool() { 0 } else { 10_000_000 },
+        threads,
+        per_thread,
+        key,
+        same_claims,
+        claims,
+        decoys: rng.chance(3, 4),
+        restarts,
+        preempt_entropy: rng.chance(7, 8),
+        preempt_clock: rng.bool(),
+    })
+}
+
+struct WorldOut {
+    issued: Vec<(usize, String)>,
+    sched_hash: u64,
+    preempts: u64,
+    threads_spawned: u64,
+    steps: u64,
+}
+
+/// One world: `threads` issuer nodes in lock-step, each issuing `per_thread` credentials.
+fn run_threads_world(scn: &ThreadsScn, entropy_seed: u64) -> WorldOut {
+    seams::activate(entropy_seed, scn.clock_base.max(1_000_000_000), mix(&[scn.sched_seed, 14]), scn.tick_max_ns);
+    let mut w = World::new(BTreeMap::new());
+    let nodes: Vec<usize> = (0..scn.threads).map(|_| w.rt.add_node()).collect();
+    let issuers: Vec<world::IssuerHandle> = (0..scn.threads).map(|_| World::new_issuer(&scn.key, Some(keys::alg_of(&scn.key).to_string()))).collect();
+    let mut remaining: Vec<usize> = vec![scn.per_thread; scn.threads];
+    let mut done: Vec<usize> = vec![0; scn.threads];
+    let mut busy: Vec<bool> = vec![false; scn.threads];
+    let mut issued: Vec<(usize, String)> = Vec::new();
+    let mut rng = Rng::new(scn.sched_seed);
+    let mut sched_hash = 0xabcdu64;
+    let mut preempts = 0u64;
+    seams::PREEMPT_ENTROPY.store(scn.preempt_entropy, Ordering::SeqCst);
+    seams::PREEMPT_CLOCK.store(scn.preempt_clock, Ordering::SeqCst);
+    loop {
+        for t in 0..scn.threads {
+            if !busy[t] && remaining[t] > 0 {
+                if scn.restarts.iter().any(|(rt_, after)| *rt_ == t && *after == done[t]) && done[t] > 0 {
+                    w.rt.restart_node(nodes[t]);
+                    seams::log_u64("restart", t as u64);
+                }
+                let ih = issuers[t].clone();
+                let claims = scn.claims[if scn.same_claims { 0 } else { t % scn.claims.len() }].clone();
+                let decoys = scn.decoys;
+                let job: Job = Box::new(move || {
+                    let mut g = ih.lock().unwrap_or_else(|e| e.into_inner());
+                    let r = g.issue_sd_jwt(claims, sd_jwt_rs::issuer::ClaimsForSelectiveDisclosureStrategy::AllLevels, None, decoys, sd_jwt_rs::SDJWTSerializationFormat::Compact);
+                    Box::new(r.ok()) as JobOut
+                });
+                w.rt.submit(nodes[t], job);
+                busy[t] = true;
+                remaining[t] -= 1;
+            }
+        }
+        let runnable: Vec<usize> = (0..scn.threads).filter(|t| busy[*t]).collect();
+        if runnable.is_empty() {
+            break;
+        }
+        let t = runnable[rng.usize(runnable.len())];
+        sched_hash = mix(&[sched_hash, t as u64]);
+        seams::log_u64("sched", t as u64);
+        match w.rt.step(nodes[t]) {
+            Step::Yielded(_) => preempts += 1,
+            Step::Finished(r) => {
+                busy[t] = false;
+                done[t] += 1;
+                if let Ok(o) = r {
+                    if let Ok(s) = o.downcast::<Option<String>>() {
+                        if let Some(s) = *s {
+                            seams::log("issued", s.as_bytes());
+                            issued.push((t, s));
+                        }
+                    }
+                }
+            }
+        }
+    }
+    seams::PREEMPT_ENTROPY.store(false, Ordering::SeqCst);
+    seams::PREEMPT_CLOCK.store(false, Ordering::SeqCst);
+    let (sp, st) = (w.rt.spawned, w.rt.steps);
+    w.rt.shutdown();
+    WorldOut { issued, sched_hash, preempts, threads_spawned: sp, steps: st }
+}
+
+struct SaltScan {
+    salts: Vec<String>,
+    decoys: Vec<String>,
+    reals: Vec<String>,
+    problems: Vec<(String, Value)>,
+}
+
+fn scan(issued: &[(usize, String)]) -> SaltScan {
+    let mut sc = SaltScan { salts: vec![], decoys: vec![], reals: vec![], problems: vec![] };
+    for (t, s) in issued {
+        let Some(m) = Message::parse(s, Fmt::Compact) else { continue };
+        let Some(p) = world::payload_of(&m) else { continue };
+        let (_, proc) = model::process(&p, &m.disclosures);
+        // digest binding: every issued disclosure is referenced by the SHA-256 of its base64url text
+        if proc.nodes.len() != m.disclosures.len() {
+            sc.problems.push(("c14:digest_not_bound".into(), json!({"thread": t, "disclosures": m.disclosures.len(), "referenced": proc.nodes.len()})));
+        }
+        let real: HashSet<&String> = proc.nodes.iter().map(|n| &n.digest).collect();
+        for d in &proc.seen {
+            if real.contains(d) {
+                sc.reals.push(d.clone());
+            } else {
+                sc.decoys.push(d.clone());
+            }
+        }
+        for d in &m.disclosures {
+            match model::decode_disclosure(d).and_then(|v| v.get(0).and_then(Value::as_str).map(str::to_string)) {
+                Some(salt) => {
+                    match model::b64d(&salt) {
+                        Some(b) if b.len() >= 16 => {}
+                        Some(b) => sc.problems.push(("c14:salt_too_short".into(), json!({"thread": t, "salt": salt, "bytes": b.len()}))),
+                        None => sc.problems.push(("c14:salt_not_base64url".into(), json!({"thread": t, "salt": salt}))),
+                    }
+                    sc.salts.push(salt);
+                }
+                None => sc.problems.push(("c14:salt_missing".into(), json!({"thread": t}))),
+            }
+        }
+    }
+    sc
+}
+
+pub fn execute_c14(scn_v: &Value) -> RunReport {
+    let scn: ThreadsScn = match serde_json::from_value(scn_v.clone()) {
+        Ok(s) => s,
+        Err(e) => return RunReport { harness_error: Some(format!("invalid scenario: {}", e)), ..Default::default() },
+    };
+    if scn.threads == 0 || scn.threads > 64 || scn.claims.is_empty() {
+        return RunReport { harness_error: Some("invalid scenario: threads/claims".into()), ..Default::default() };
+    }
+    let t0 = scn.clock_base.max(1_000_000_000);
+    let mut cx = Ctx::new();
+    let scenario = scn_v.clone();
+    // world A twice (same seed) and world B (other seed), same schedule
+    let a = run_threads_world(&scn, scn.entropy_seed);
+    let end_a = seams::deactivate();
+    let a2 = run_threads_world(&scn, scn.entropy_seed);
+    let end_a2 = seams::deactivate();
+    let b = run_threads_world(&scn, scn.other_entropy_seed);
+    cx.rep.add("rt.threads_spawned", a.threads_spawned + a2.threads_spawned + b.threads_spawned);
+    cx.rep.add("rt.steps", a.steps + a2.steps + b.steps);
+    cx.rep.add("fault.preempt_at_seam", a.preempts);
+    cx.rep.add("fault.restart_node", scn.restarts.len() as u64);
+    if a.preempts > 0 {
+        cx.rep.count("probe.preempted_inside_issue");
+    }
+    if end_a.loghash != end_a2.loghash || a.issued != a2.issued {
+        let mut r = finish(cx, None, t0);
+        r.harness_error = Some("nondeterminism: the same world (same entropy seed, same schedule) produced different output — an uncontrolled source feeds the salts or the schedule".into());
+        return r;
+    }
+    let sa = scan(&a.issued);
+    let sb = scan(&b.issued);
+    cx.rep.evaluations += (sa.salts.len() + sa.decoys.len()) as u64;
+    cx.rep.add("oracle.c14.salts_checked", sa.salts.len() as u64);
+    cx.rep.add("oracle.c14.decoy_digests_checked", sa.decoys.len() as u64);
+    for (sig, detail) in sa.problems.iter().take(3) {
+        cx.violate("C14", "salt-form-and-digest-binding", sig.clone(), BTreeMap::new(), detail.clone(), scenario.clone());
+    }
+    // pairwise distinctness
+    let mut seen: HashSet<&String> = HashSet::new();
+    for s in &sa.salts {
+        if !seen.insert(s) {
+            cx.violate("C14", "salts-pairwise-distinct", "c14:salt_repeated".into(), BTreeMap::from([("threads".to_string(), json!(scn.threads))]), json!({"salt": s, "threads": scn.threads, "frozen_clock": scn.tick_max_ns == 0}), scenario.clone());
+            break;
+        }
+    }
+    let mut dseen: HashSet<&String> = HashSet::new();
+    let realset: HashSet<&String> = sa.reals.iter().collect();
+    for d in &sa.decoys {
+        if !dseen.insert(d) || realset.contains(d) {
+            cx.violate("C14", "decoy-digests-pairwise-distinct", "c14:decoy_repeated".into(), BTreeMap::new(), json!({"digest": d}), scenario.clone());
+            break;
+        }
+    }
+    // entropy sensitivity: a world differing only in the entropy seed shares no salt
+    let bset: HashSet<&String> = sb.salts.iter().collect();
+    cx.rep.count("oracle.c14.entropy_sensitivity_checked");
+    if let Some(s) = sa.salts.iter().find(|s| bset.contains(s)) {
+        cx.violate("C14", "salts-depend-on-entropy", "c14:salt_independent_of_entropy".into(), BTreeMap::new(), json!({"salt": s, "note": "the same salt appears in two worlds that differ only in the OS entropy stream"}), scenario.clone());
+    }
+    let bd: HashSet<&String> = sb.decoys.iter().collect();
+    if let Some(d) = sa.decoys.iter().find(|d| bd.contains(d)) {
+        cx.violate("C14", "salts-depend-on-entropy", "c14:decoy_independent_of_entropy".into(), BTreeMap::new(), json!({"digest": d}), scenario.clone());
+    }
+    // per-bit frequency over all salts of both worlds (first 16 bytes)
+    let mut ones = [0u64; 128];
+    let mut n = 0u64;
+    for s in sa.salts.iter().chain(sb.salts.iter()) {
+        if let Some(b) = model::b64d(s) {
+            if b.len() >= 16 {
+                n += 1;
+                for (i, o) in ones.iter_mut().enumerate() {
+                    if (b[i / 8] >> (7 - i % 8)) & 1 == 1 {
+                        *o += 1;
+                    }
+                }
+            }
+        }
+    }
+    if n >= 64 {
+        cx.rep.count("oracle.c14.bit_balance_checked");
+        let bound = 4.0 * (n as f64).sqrt(); // 8 sigma, sigma = sqrt(n)/2
+        for (i, o) in ones.iter().enumerate() {
+            if ((*o as f64) - (n as f64) / 2.0).abs() > bound {
+                cx.violate("C14", "no-fixed-bits", "c14:bit_bias".into(), BTreeMap::new(), json!({"bit": i, "ones": o, "n": n, "bound_8_sigma": bound}), scenario.clone());
+                break;
+            }
+        }
+    }
+    if a.issued.len() >= 2 {
+        cx.nontrivial.insert(mix(&[scn.entropy_seed, a.sched_hash]));
+        cx.nontrivial.insert(mix(&[scn.other_entropy_seed, b.sched_hash]));
+    }
+    cx.states.insert(a.sched_hash);
+    cx.rep.add("probe.distinct_schedule", 1);
+    cx.rep.sample = Some(json!({"kind": "threads", "threads": scn.threads, "per_thread": scn.per_thread, "key": scn.key, "frozen_clock": scn.tick_max_ns == 0, "restarts": scn.restarts,
+        "salts_world_a": sa.salts.len(), "decoy_digests_world_a": sa.decoys.len(), "preemptions_at_seams": a.preempts, "schedule_hash": format!("{:016x}", a.sched_hash), "example_salt": sa.salts.first()}));
+    let mut r = finish(cx, None, t0);
+    // the run's event log is world A's (+ B's) — A and A2 were proven equal above
+    r.loghash = format!("{}+{}", end_a.loghash, r.loghash);
+    r
+}
+
+// ---------------------------------------------------------------------------------------------
+// C16 (mock_salts build)
+
+#[derive(Clone, Debug, Serialize, Deserialize, PartialEq)]
+pub struct MockIssue {
+    pub claims: Value,
+    pub strat: Strat,
+    pub fmt: Fmt,
+    /// which of the two issuer threads performs it
+    pub node: usize,
+}
+
+#[derive(Clone, Debug, Serialize, Deserialize, PartialEq)]
+pub struct MockScn {
+    pub kind: String,
+    pub check: String,
+    pub entropy_seed: u64,
+    pub clock_base: i64,
+    pub key: String,
+    pub queue: Vec<String>,
+    pub issuances: Vec<MockIssue>,
+}
+
+fn nasty_string(rng: &mut Rng) -> String {
+    let atoms = [",", ":", "[", "]", "\"", "\\", " ", "  ", "\":", ":[", ", ", "\": ", "\":  ", "{", "}", "a", "b", "1 Main St,Town", "x\":y", "p:[q", "é", "\\\"", "\\\\", "\":\"", "\",\"", "\\u0041", "\n"];
+    let n = 1 + rng.usize(6);
+    (0..n).map(|_| *rng.pick(&atoms)).collect()
+}
+
+fn nasty_value(rng: &mut Rng, depth: usize) -> Value {
+    match rng.usize(if depth > 2 { 4 } else { 7 }) {
+        0 | 1 | 2 => json!(nasty_string(rng)),
+        3 => gen::gen_number(rng),
+        4 => {
+            let n = 1 + rng.usize(3);
+            Value::Array((0..n).map(|_| nasty_value(rng, depth + 1)).collect())
+        }
+        _ => {
+            let mut m = Map::new();
+            for _ in 0..1 + rng.usize(3) {
+                let k = if rng.bool() { nasty_string(rng) } else { format!("k{}", rng.below(20)) };
+                if !matches!(k.as_str(), "_sd" | "...") {
+                    m.insert(k, nasty_value(rng, depth + 1));
+                }
+            }
+            Value::Object(m)
+        }
+    }
+}
+
+pub fn gen_c16(rng: &mut Rng, _tier: Tier) -> Result<Value, serde_json::Error> {
+    let now = clock_base(rng);
+    let key = rng.pick(&["hsA", "edA", "ecA"]).to_string();
+    let n = 1 + rng.usize(4);
+    let mut issuances = Vec::new();
+    for _ in 0..n {
+        let mut m = Map::new();
+        let plain = rng.chance(1, 3);
+        for _ in 0..1 + rng.usize(4) {
+            let k = if rng.chance(1, 4) { nasty_string(rng) } else { format!("c{}", rng.below(30)) };
+            if matches!(k.as_str(), "_sd" | "..." | "iss" | "exp") {
+                continue;
+            }
+            let v = if plain {
+                let cfg = GenCfg { hazard_pm: 0, max_depth: 3, max_nodes: 10, alphabet: 0, path_safe_names: true };
+                gen::gen_leaf(rng, &cfg)
+            } else {
+                nasty_value(rng, 0)
+            };
+            m.insert(k, v);
+        }
+        m.insert("iss".into(), json!("https://issuer-a.example"));
+        m.insert("exp".into(), json!(now + 86400));
+        let claims = Value::Object(m);
+        let strat = match rng.usize(4) {
+            0 => Strat::Top,
+            1 => gen::gen_strategy(rng, &claims),
+            _ => Strat::All,
+        };
+        issuances.push(MockIssue { claims, strat, fmt: rand_fmt(rng), node: rng.usize(2) });
+    }
+    // queue comfortably longer than needed (an empty queue panics by design of the mock build)
+    let qlen = 400;
+    let queue: Vec<String> = (0..qlen)
+        .map(|i| {
+            let mut b = [0u8; 16];
+            rng.fill(&mut b);
+            format!("{}-{}", model::b64e(&b), i)
+        })
+        .collect();
+    serde_json::to_value(MockScn { kind: "mock".into(), check: "C16".into(), entropy_seed: rng.next_u64(), clock_base: now, key, queue, issuances })
+}
+
+#[cfg(not(feature = "mock"))]
+pub fn execute_c16(_scn_v: &Value) -> RunReport {
+    RunReport { harness_error: Some("C16 scenarios need the sdsim-mock binary (sd-jwt-rs built with feature mock_salts)".into()), ..Default::default() }
+}
+
+#[cfg(feature = "mock")]
+pub fn execute_c16(scn_v: &Value) -> RunReport {
+    let scn: MockScn = match serde_json::from_value(scn_v.clone()) {
+        Ok(s) => s,
+        Err(e) => return RunReport { harness_error: Some(format!("invalid scenario: {}", e)), ..Default::default() },
+    };
+    let t0 = scn.clock_base.max(1_000_000_000);
+    let mut cx = Ctx::new();
+    let scenario = scn_v.clone();
+    let set_queue = |q: &[String]| {
+        let mut g = sd_jwt_rs::utils::SALTS.lock().unwrap_or_else(|e| e.into_inner());
+        g.clear();
+        g.extend(q.iter().cloned());
+    };
+    let queue_now = || -> Vec<String> { sd_jwt_rs::utils::SALTS.lock().unwrap_or_else(|e| e.into_inner()).iter().cloned().collect() };
+    let alg = Some(keys::alg_of(&scn.key).to_string());
+    let mut runs: Vec<Vec<Option<String>>> = Vec::new();
+    let mut last_world: Option<World> = None;
+    for pass in 0..2 {
+        if pass == 1 {
+            seams::deactivate();
+        }
+        seams::activate(scn.entropy_seed, t0, mix(&[scn.entropy_seed, 16]), 0);
+        let mut dir = BTreeMap::new();
+        dir.insert("https://issuer-a.example".to_string(), scn.key.clone());
+        let mut w = World::new(dir);
+        let nodes = [w.rt.add_node(), w.rt.add_node()];
+        let n_h = w.rt.add_node();
+        let n_v = w.rt.add_node();
+        let ih = [World::new_issuer(&scn.key, alg.clone()), World::new_issuer(&scn.key, alg.clone())];
+        set_queue(&scn.queue);
+        let mut consumed = 0usize;
+        let mut outs = Vec::new();
+        for (j, is) in scn.issuances.iter().enumerate() {
+            let nd = is.node % 2;
+            let out = w.issue(nodes[nd], &ih[nd], &scn.key, &is.claims, &is.strat, None, false, is.fmt);
+            if pass == 0 {
+                cx.rep.evaluations += 1;
+            }
+            if out.is_panic() {
+                cx.rep.count("skipped_panic_is_c07");
+                outs.push(None);
+                // the queue position after an unwound issuance is undefined: stop this pass
+                break;
+            }
+            let Out::Ok(s) = &out else {
+                outs.push(None);
+                continue;
+            };
+            outs.push(Some(s.clone()));
+            // both passes execute exactly the same operations (so that the entropy stream is
+            // consumed identically); only the first pass evaluates the oracles
+            let check = pass == 0;
+            let Some(m) = Message::parse(s, is.fmt) else { continue };
+            let n_j = m.disclosures.len();
+            // (conservation) exactly one salt per disclosure, in order
+            if check {
+                cx.rep.count("oracle.c16.conservation_checked");
+            }
+            let left = queue_now();
+            let want_left = &scn.queue[(consumed + n_j).min(scn.queue.len())..];
+            if check && left.as_slice() != want_left {
+                cx.violate("C16", "queue-conservation", "c16:queue_not_conserved".into(), BTreeMap::new(), json!({"issuance": j, "disclosures": n_j, "consumed_before": consumed, "queue_left": left.len(), "expected_left": want_left.len()}), scenario.clone());
+            }
+            for (i, d) in m.disclosures.iter().enumerate() {
+                let salt = model::decode_disclosure(d).and_then(|v| v.get(0).and_then(Value::as_str).map(str::to_string));
+                if check && salt.as_deref() != scn.queue.get(consumed + i).map(|s| s.as_str()) {
+                    cx.violate("C16", "salts-in-order", "c16:salt_out_of_order".into(), BTreeMap::new(), json!({"issuance": j, "disclosure": i, "salt": salt, "expected": scn.queue.get(consumed + i)}), scenario.clone());
+                    break;
+                }
+            }
+            consumed += n_j;
+            // (value preservation) issue -> present everything -> verify returns U exactly
+            let pres = match w.holder_new(n_h, s, is.fmt) {
+                Out::Ok(h) => w.present(n_h, &h, &gen::select_all(&is.claims), None),
+                Out::Err { variant, msg } => Out::Err { variant, msg },
+                Out::Panic(p) => Out::Panic(p),
+            };
+            if !check {
+                if let Out::Ok(p) = &pres {
+                    let _ = w.verify(n_v, p, is.fmt, None, &Resolver::Directory);
+                }
+                continue;
+            }
+            cx.rep.count("oracle.c16.roundtrip_checked");
+            match &pres {
+                Out::Ok(p) => {
+                    let vo = w.verify(n_v, p, is.fmt, None, &Resolver::Directory);
+                    match vo.res() {
+                        Out::Ok(got) => {
+                            // every hidden claim was selected? (select_all discloses children of
+                            // selected parents only when the parent is an object/array selector)
+                            if let Some(pm) = Message::parse(p, is.fmt) {
+                                if pm.disclosures.len() == n_j {
+                                    cx.rep.count("oracle.c16.roundtrip_full");
+                                    if *got != is.claims {
+                                        let class = model::diff_class(got, &is.claims);
+                                        cx.violate("C16", "values-preserved", format!("c16:value_altered:{}", class), BTreeMap::new(), json!({"issuance": j, "claims": is.claims, "verified": got}), scenario.clone());
+                                    }
+                                }
+                            }
+                        }
+                        Out::Err { variant, msg } => {
+                            if !model::has_empty_array(&is.claims) {
+                                cx.violate("C16", "values-preserved", "c16:roundtrip_rejected".into(), BTreeMap::new(), json!({"issuance": j, "claims": is.claims, "verifier": format!("{}: {}", variant, msg)}), scenario.clone());
+                            }
+                        }
+                        Out::Panic(_) => cx.rep.count("skipped_panic_is_c07"),
+                    }
+                }
+                Out::Err { .. } => cx.rep.count("presentations_refused"),
+                Out::Panic(_) => cx.rep.count("skipped_panic_is_c07"),
+            }
+            if cx.rep.sample.is_none() {
+                cx.rep.sample = Some(json!({"kind": "mock", "issuance": j, "claims": is.claims, "strategy": is.strat.name(), "disclosures": n_j,
+                    "decoded_disclosures": m.disclosures.iter().take(4).map(|d| model::b64d(d).map(|b| String::from_utf8_lossy(&b).to_string())).collect::<Vec<_>>()}));
+            }
+        }
+        runs.push(outs);
+        if pass == 0 {
+            w.rt.shutdown();
+        } else {
+            last_world = Some(w);
+        }
+    }
+    // (replay) the same scenario executed twice gives byte-identical disclosures and payload —
+    // and whole strings, since the signature nonce comes from the simulated entropy
+    cx.rep.count("oracle.c16.replay_checked");
+    if runs.len() == 2 && runs[0] != runs[1] {
+        cx.violate("C16", "byte-identical-re-execution", "c16:not_reproducible".into(), BTreeMap::new(), json!({"first": runs[0], "second": runs[1]}), scenario.clone());
+    }
+    let hist = hash_str(&serde_json::to_string(&scn.issuances).unwrap_or_default());
+    if scn.issuances.len() >= 2 || scn.issuances.iter().any(|i| i.claims.to_string().contains(|c| c == ',' || c == ':')) {
+        cx.nontrivial.insert(mix(&[hist, hash_str(&scn.queue.join(","))]));
+    }
+    cx.states.insert(hash_str(&format!("c16|{}|{}", scn.key, scn.issuances.len())));
+    set_queue(&[]);
+    finish(cx, last_world, t0)
+}
